@@ -117,6 +117,24 @@ def run(ctx):
                     ofails.append((f"unaudited-name-used: {kind['loader']} ignores its name in the audit but resolved {n!r} with trusted=None",
                                    dict(kind="archive", schema=s2, members=sorted(members), trusted=None)))
                 continue
+            # a loader whose state names a function twice (header and content.module_path/function): the dangerous name in either
+            # place alone, the other left as the honest default-trusted one - whichever of the two the audit reads, the name that
+            # is resolved must be the one that was audited (independent of how the translator reads the loader)
+            if isinstance(st.get("content"), dict) and "module_path" in st["content"]:
+                for place in ("header", "content"):
+                    s3 = json.loads(json.dumps(st))
+                    if place == "header":
+                        s3["__module__"], s3["__class__"] = m, c
+                    else:
+                        s3["content"]["module_path"], s3["content"]["function"] = m, c
+                    d3 = ioarch.make_zip(s3, members)
+                    evaluations += 1
+                    r3 = ioarch.impl_load(d3, None)
+                    if n in r3["events"]:
+                        ofails.append((f"dangerous-accepted: {kind['loader']}@{kind['protocol']} with {n!r} in its {place} only (the other name is the "
+                                       f"default-trusted {st['__module__']}.{st['__class__']}) resolved it with trusted=None (outcome {r3['outcome']})",
+                                       dict(kind="archive", schema=s3, members=sorted(members), trusted=None)))
+                        break
             want = n if kind["loader"] != "MethodNode" else n + ".run"
             if r["outcome"] == "ok" or used:
                 ofails.append((f"dangerous-accepted: {kind['loader']}@{kind['protocol']} named {n!r} loaded/resolved with trusted=None (outcome {r['outcome']})"
@@ -264,7 +282,7 @@ def run(ctx):
         for pr in pre["problems"][:3]:
             ofails.append((f"foreign-registration-trusted: after another package registered its class with scikit-learn/numpy before "
                            f"skops.io was imported, {pr['case']}: {pr['what']}",
-                           dict(kind="preimport", run="python -m harness.c11_preimport", **pr)))
+                           dict(kind="preimport", run="python -m harness.c11_preimport", case=pr["case"], name=pr["name"], schema=pr["schema"])))
     except Exception:
         ofails.append((f"harness: the pre-import interpreter failed: {p_.stderr[-300:]}", dict(kind="preimport")))
     evaluations += preimport_cases
